@@ -1,7 +1,7 @@
 #!/bin/bash
 # tools/try_mutant.sh <property-id> <patch.diff> [more check ids...]
 # Scratch worktree of /repo: apply the patch, build, run the repository's own test suite (must pass), then run the
-# check(s) (quick tier) against that worktree (VERIF_REPO) - /repo itself is not touched. The worktree is removed.
+# check(s) (quick tier; SKIP_SUITE=1 skips the suite for a re-trial of a change which passed it before) against that worktree (VERIF_REPO) - /repo itself is not touched. The worktree is removed.
 export GOFLAGS=-mod=mod GOPROXY=off GOSUMDB=off GOTOOLCHAIN=local
 ID=$1; PATCH=$(readlink -f "$2"); shift 2
 CHECKS="$ID $*"
@@ -11,7 +11,7 @@ git -C /repo worktree add -q --detach "$W" HEAD || exit 2
 cleanup() { git -C /repo worktree remove --force "$W" 2>/dev/null; }
 ( cd "$W" && (git apply "$PATCH" 2>/dev/null || git apply -3 "$PATCH") ) || { echo "PATCH DOES NOT APPLY"; cleanup; exit 3; }
 ( cd "$W" && go build ./... ) || { echo "MUTANT DOES NOT BUILD"; cleanup; exit 3; }
-T=$(cd "$W" && go test -vet=off -count=1 ./... 2>&1 | grep -v "no test files" | grep -v "^ok" | head -5)
+[ -n "$SKIP_SUITE" ] || T=$(cd "$W" && go test -vet=off -count=1 ./... 2>&1 | grep -v "no test files" | grep -v "^ok" | head -5)
 if [ -n "$T" ]; then echo "EXISTING TESTS FAIL WITH THE MUTANT:"; echo "$T"; cleanup; exit 4; fi
 echo "mutant builds, existing suite passes"
 rc=0
